@@ -299,7 +299,9 @@ func (fr *Frame) applyContract(ins *ssa.Call, fc *FuncContract, key string, call
 		}
 		vc.assume(reach, t)
 	}
+	fr.ghostResults = resVals
 	fr.ghostStmts(key, ordinal, "after", st, reach)
+	fr.ghostResults = nil
 	return reach
 }
 
@@ -349,6 +351,12 @@ func (fr *Frame) ghostAssign(gs *GhostStmt, st *State) {
 		return
 	}
 	sc := fr.baseScope(st)
+	if len(fr.ghostResults) == 1 {
+		sc.vars["result"] = fr.ghostResults[0]
+	}
+	for i, rv := range fr.ghostResults {
+		sc.vars[fmt.Sprintf("result%d", i)] = rv
+	}
 	v, err := sc.compileVal(gs.Expr)
 	if err != nil {
 		vc.Errors = append(vc.Errors, fmt.Sprintf("ghost set %s: %v", gs.Var, err))
